@@ -40,6 +40,9 @@ var (
 )
 
 type Solver struct {
+	// cross: secondary solvers (thorough tier) that must agree on every
+	// discharged assertion batch
+	cross []*Solver
 	kind  SolverKind
 	cmd   *exec.Cmd
 	in    io.WriteCloser
